@@ -1021,25 +1021,11 @@ class Blob(ShaFile):
         chunks = self.chunked
         if not chunks:
             return []
-        if len(chunks) == 1:
-            result: list[bytes] = chunks[0].splitlines(True)
-            return result
-        remaining = None
-        ret = []
-        for chunk in chunks:
-            lines = chunk.splitlines(True)
-            if len(lines) > 1:
-                ret.append((remaining or b"") + lines[0])
-                ret.extend(lines[1:-1])
-                remaining = lines[-1]
-            elif len(lines) == 1:
-                if remaining is None:
-                    remaining = lines.pop()
-                else:
-                    remaining += lines.pop()
-        if remaining is not None:
-            ret.append(remaining)
-        return ret
+        # Line boundaries must not depend on how the content is chunked: a
+        # chunk can end in a newline, or in the "\r" of a "\r\n" pair.
+        data = chunks[0] if len(chunks) == 1 else b"".join(chunks)
+        result: list[bytes] = data.splitlines(True)
+        return result
 
 
 def _parse_message(
